@@ -30,6 +30,14 @@ def gen_language(rng, h):
     nops = rng.randint(4, 7)
     for i in range(nops):
         kind = rng.choice(["mono", "mono", "poly", "poly", "constr", "ho", "data", "inst"])
+        if i == 0:
+            # every language has one operator of the shape of the property's own example, f : x ** x ** x
+            k = rng.choice([2, 3, 3])
+            body = ("v", 0)
+            for _ in range(k):
+                body = ("o", 3, [("v", 0), body])
+            ops.append(("j0", (1, body, []), [("v", 0)] * k, ("v", 0)))
+            continue
         if kind == "inst":
             # a signature written without a lambda: a type instance.  With a `_` in
             # it the one variable would be shared by every use; Operator.validate
@@ -123,12 +131,20 @@ def remaining_type(f, nargs):
     return t
 
 
+INPUT_HEAVY = {"p": 0.0}     # set per expression by main(): probability that a leaf is a numbered input
+
+
 def gen_expr(rng, h, ops, target, depth, ninputs, assign=None):
     base = [("o", o, []) for o in range(5, 5 + h.nbase)]
     assign = {} if assign is None else assign
     r = rng.random()
     want_fun = target is not None and target[0] == "o" and target[1] == 3
     if not want_fun and (depth <= 0 or r < 0.45):
+        if ninputs and INPUT_HEAVY["p"] and rng.random() < INPUT_HEAVY["p"]:
+            # the same input object in several places, sometimes annotated (`(1 : A)` is checked,
+            # and bounds an input that was given without a type)
+            leaf = ("in", rng.randrange(ninputs))
+            return ("ann", leaf, rng.choice(base)) if rng.random() < 0.25 else leaf
         q = rng.random()
         if q < 0.6:
             t = E.instantiate(rng, h, target, assign) if target is not None else rng.choice(base)
@@ -145,7 +161,9 @@ def gen_expr(rng, h, ops, target, depth, ninputs, assign=None):
             return ("src", t)
         if q < 0.72:
             return ("src", None)
-        if q < 0.82 and ninputs:
+        if q < 0.86 and ninputs:
+            # numbered inputs are shared objects: using one several times lets
+            # its (possibly still variable) type accumulate bounds
             return ("in", rng.randrange(ninputs))
         data = [o for o in ops if not o[2] and fits_result(h, o[3], target)]
         if data:
@@ -308,10 +326,42 @@ class Compiler:
             self.push(("fix", node[1], True))
 
 
+def gen_shared_input(rng, h, ops, depth):
+    """Shared-input family: one input given without a type is used in several places under
+    variable-typed and fixed-typed parameters, next to sources taken from one chain of the
+    hierarchy, so that its type variable is aliased repeatedly while it carries bounds."""
+    deep = max(range(5, 5 + h.nbase), key=lambda o: (len(E.chain_of(h, o)), rng.random()))
+    chain = [("o", o, []) for o in E.chain_of(h, deep)]
+    inchain = lambda t: t[0] == "v" or (t[0] == "o" and not t[2] and t in chain)
+    fs = [o for o in ops if o[2] and all(inchain(p) for p in o[2]) and inchain(o[3])]
+
+    def leaf():
+        r = rng.random()
+        if r < 0.5:
+            e = ("in", 0)
+            return ("ann", e, rng.choice(chain)) if rng.random() < 0.4 else e
+        if r < 0.9:
+            return ("src", rng.choice(chain))
+        return ("src", None)
+
+    def go(d, p_leaf):
+        if d <= 0 or rng.random() < p_leaf or not fs:
+            return leaf()
+        f = rng.choice(fs)
+        e = ("op", f[0])
+        for i in range(len(f[2])):
+            # the earlier arguments are mostly leaves, the last one mostly nested: bounds are
+            # collected while the application is still partial (a complete one is fixed at once)
+            e = ("app", e, go(d - 1, 0.25 if i == len(f[2]) - 1 else 0.75))
+        return e
+    return go(depth, 0.0)
+
+
 def compile_case(ops, tree, input_types):
     c = Compiler(ops, input_types)
     for i, t in enumerate(input_types):
-        c.input_vals[i] = c.push(("inst", (0, t, [])))
+        # an input given without a type is `Source()`: a fresh variable
+        c.input_vals[i] = c.push(("inst", (0, t if t is not None else ("w",), [])))
     root = c.build(tree)
     c.fix(root)
     return c, root
@@ -322,7 +372,7 @@ def impl_values(h, lang, names, tree, input_types, comp_root):
     compiled program's value indices, root Expr)."""
     import transforge as tf
     from transforge.expr import Application, Source, Operation
-    inputs = [tf.Source(build_conc(h, t)) for t in input_types]
+    inputs = [tf.Source(build_conc(h, t)) if t is not None else tf.Source() for t in input_types]
     text = render(tree, names)
     try:
         expr = lang.parse(text, *inputs)
@@ -404,6 +454,7 @@ def main(tier: str, seed: int, replay: str | None = None) -> int:
     rep = C.Report("C04", tier, seed)
     rep.proof_stage()
     rep.proof_stage("C04_sub")      # ... and for operators with subtype constraints x <= A / x < A
+    rep.proof_stage("C04_elim")     # ... and for operators with elimination constraints over base-type alternatives
     rep.proof_stage("C04_core")     # every node well-typed, leaves are instances, annotations hold - unconditionally for constraint-free operators
     rng = random.Random(seed)
     nh, npl = (40, 80) if tier == "quick" else (150, 200)
@@ -433,8 +484,19 @@ def main(tier: str, seed: int, replay: str | None = None) -> int:
         progs = []
         for _ in range(npl):
             ninputs = rng.choice([0, 0, 1, 2])
-            input_types = [("o", rng.randrange(5, 5 + h.nbase), []) for _ in range(ninputs)]
+            input_types = [None if rng.random() < 0.4 else ("o", rng.randrange(5, 5 + h.nbase), [])
+                           for _ in range(ninputs)]
+            if rng.random() < 0.3:
+                # input-heavy family: one or two inputs given without a type, used in many places
+                ninputs = rng.choice([1, 1, 2])
+                input_types = [None if rng.random() < 0.8 else ("o", rng.randrange(5, 5 + h.nbase), [])
+                               for _ in range(ninputs)]
+                INPUT_HEAVY["p"] = 0.5
             tree = gen_expr(rng, h, ops, None, 3, ninputs)
+            INPUT_HEAVY["p"] = 0.0
+            if rng.random() < 0.3:
+                input_types = [None]
+                tree = gen_shared_input(rng, h, ops, 3)
             if tree[0] != "app":
                 continue
             comp, root = compile_case(ops, tree, input_types)
